@@ -30,6 +30,15 @@ CHECKS = {
         'note': TB + 'Not decided: equality of maps for gate sequences, local_ap_simp\'s effect, the CCZ gadget identity.',
         'technique': 'dispatch-table descriptors cross-checked between two implementations and a reference, sibling agreement, data-flow rule on the map, who-may-call',
     },
+    'C03': {
+        'text': 'Static: every gate constructed in code reachable from Extractor::extract (including the RowOps-for-Circuit callbacks) has a constant kind '
+                'in {H, ZPhase, CZ, CNOT, SWAP} (decides that clause of the statement completely); each m.add_row is mirrored by c1.add_row with identical '
+                'operands and the same m is written back; every proxy circuit is consumed into the output circuit on every path; update_frontier_circuit visits '
+                'all gates in order, lifts both operands through the frontier and pushes to the front; only checked rules; every ExtractError propagated; CLI '
+                'wiring parse -> to_graph -> simp -> to_circuit -> to_qasm -> print/write; configuration tables.',
+        'note': TB + 'Not decided: that extraction succeeds and that the circuit is equivalent (gflow of run-time graphs, bitgauss convention), .expect in the CLI.',
+        'technique': 'constant-argument emission rule over call-graph closure, mirrored-operation and proxy-consumption pairing, who-may-call, error-propagation rule, wiring/data-flow and configuration tables',
+    },
     'C04': {
         'text': 'Static: must-fact extraction over the resolved HIR shows that each of the 14 contracted matchers establishes, on every accepting path, '
                 'every conjunct of its rule precondition that is necessary for soundness or for not panicking (refs/rules_req.py); existence typestate: no '
